@@ -6,7 +6,9 @@ MPN_DECR_U) and mpz/aorsmul.c (mpz_addmul / mpz_submul: the one-limb shortcut in
 `MPZ_REALLOC (w, MAX (wsize, tsize) + 1)` and the carry store `wp[wsize] = c`) and mpz/mul.c (one-limb path, basecase shortcut, the generic
 path: a block that is too small is replaced by a fresh one of exactly usize + vsize limbs whose contents are NOT copied — the old block is kept
 until the end when w is an operand (`free_me`), freed at once otherwise —, an aliased operand copied to temporary space when the block is large
-enough, squaring) in lean/Mpir/Model/AllocSafeMpz4.lean.  Ops `as4_*`
+enough, squaring), mpz/tdiv_q.c and mpz/tdiv_r.c (`MPZ_REALLOC (quot, nl - dl + 1)` / `MPZ_REALLOC (rem, dl)` against the limbs mpn_tdiv_q / mpn_tdiv_qr store —
+sufficient, and necessary: `mpz_tdiv_q_request_necessary` —, operands copied to temporary space when they are the output variable, the quotient of
+mpz_tdiv_r in temporary space) in lean/Mpir/Model/AllocSafeMpz4.lean.  Ops `as4_*`
 (harness/ops_allocsafe4.c) run the real function on objects of the GIVEN allocations in every alias mode and compare ALLOC(w), SIZ(w)
 and the value with the model's run."""
 from genlib import *
@@ -18,10 +20,13 @@ THEOREMS = ["Mpir.AllocSafe." + t for t in (
     "mpz_addmul_ui_alloc_safe", "mpz_submul_ui_alloc_safe", "mpz_addmul_alloc_safe", "mpz_submul_alloc_safe",
     "aorsmul_1_refines", "aorsmul_1_add_refines", "aorsmul_1_sub_ge_refines", "aorsmul_1_sub_lt_refines", "subGeFix_refines",
     "aorsmul_1_zero_refines", "aorsmul_refines", "aorsmulCore_refines", "add_S_refines", "sub_S_refines", "mpn_mul_tmp_spec",
-    "Wrote.rd_src", "mpz_mul_alloc_safe", "mul_refines", "mulGeneric_refines", "mulTail_refines", "tmp_copy_spec", "Den.fresh")]
+    "Wrote.rd_src", "mpz_mul_alloc_safe", "mul_refines", "mulGeneric_refines", "mulTail_refines", "tmp_copy_spec", "Den.fresh",
+    "mpz_tdiv_q_alloc_safe", "mpz_tdiv_q_request_necessary", "mpz_tdiv_r_alloc_safe", "tdiv_q_refines", "tdiv_r_refines",
+    "Spec.tdiv_q_spec", "Spec.tdiv_r_spec", "copyIfSame_spec")]
 TRUSTED = ["hand-written size-aware models lean/Mpir/Model/AllocSafeMpz4.lean (mpz/aorsmul_i.c, aorsmul.c on the memory model of AllocSafe.lean; "
            "TMP_ALLOC_LIMBS (tsize) = a block of its own that no variable points to; mpn_mul = the schoolbook product written to "
-           "[0, xn+yn) of its destination), tied by exact comparison of ALLOC(w), SIZ(w), value in every alias mode, and by source pins"]
+           "[0, xn+yn) of its destination; mpn_tdiv_q / mpn_tdiv_qr = their contracts (C02 tdiv_q_contract / tdiv_qr_contract): exactly nl-dl+1 quotient "
+           "limbs and dl remainder limbs stored), tied by exact comparison of ALLOC(w), SIZ(w), value in every alias mode, and by source pins"]
 ASSUMPTIONS = ["MPN_INCR_U / MPN_DECR_U (gmp-impl.h: unbounded `while (++(*(p++)) == 0);`) are checked as a read and a write of the `size` limbs "
                "the caller names (aorsmul_i.c:151, 178); the carry stops inside them because of the limb stored just before"]
 RULE = ("allocsafe4: addmul_ui/submul_ui/addmul/submul with every sign combination (the effective operation is an add or a sub of magnitudes), "
